@@ -10,10 +10,11 @@ import zipfile
 from vlib import env
 from vlib.report import pmap
 import tables
-from checks.common import t_oblig, bounded_part, want, contract_sources
+from checks.common import make_replay, t_oblig, bounded_part, want, contract_sources
 from pysym.harness import run_cases
 
 LEVEL = 'proof'
+replay = make_replay('C10')
 FINISH = dict(
     rule='X/P: one obligation per path of the translated pack/unpack (whole function or region) per shape; T: one per half-float '
          'pattern / table entry; B: published packs and corpus round trips, non-trivial = molecule with a ring or stereo label',
